@@ -108,7 +108,7 @@ var cliSkips = []string{"add_table", "drop_table", "add_column", "drop_column"}
 type CLICase struct {
 	Patterns []string `json:"patterns,omitempty"`
 	Skip     []string `json:"skip,omitempty"`
-	Via      string   `json:"via"`    // flag | env
+	Via      string   `json:"via"`    // flag | env | project | project+envdiff
 	Dev      bool     `json:"dev"`    // --dev-url given
 	Source   string   `json:"source"` // hcl | db
 }
@@ -161,8 +161,22 @@ func evalCLI(c CLICase) (problems []string) {
 		to = w.URL("desired.sqlite")
 	}
 	args := []string{"schema", "apply", "--auto-approve"}
-	if c.Via == "env" {
+	if c.Via != "flag" {
 		var b strings.Builder
+		skipBlock := func(indent string) string {
+			var sb strings.Builder
+			sb.WriteString(indent + "skip {\n")
+			for _, k := range c.Skip {
+				fmt.Fprintf(&sb, "%s  %s = true\n", indent, k)
+			}
+			sb.WriteString(indent + "}\n")
+			return sb.String()
+		}
+		// "project": the policy sits in the project-level diff block and the env inherits it;
+		// "project+envdiff": the env has a diff block of its own holding only a driver option.
+		if c.Via != "env" && len(c.Skip) > 0 {
+			b.WriteString("diff {\n" + skipBlock("  ") + "}\n")
+		}
 		fmt.Fprintf(&b, "env \"e\" {\n  url = %q\n  src = %q\n", w.URL("db.sqlite"), to)
 		if c.Dev {
 			b.WriteString("  dev = \"sqlite://dev?mode=memory\"\n")
@@ -174,12 +188,11 @@ func evalCLI(c CLICase) (problems []string) {
 			}
 			fmt.Fprintf(&b, "  exclude = [%s]\n", strings.Join(qs, ", "))
 		}
-		if len(c.Skip) > 0 {
-			b.WriteString("  diff {\n    skip {\n")
-			for _, k := range c.Skip {
-				fmt.Fprintf(&b, "      %s = true\n", k)
-			}
-			b.WriteString("    }\n  }\n")
+		switch {
+		case len(c.Skip) > 0 && c.Via == "env":
+			b.WriteString("  diff {\n" + skipBlock("    ") + "  }\n")
+		case c.Via == "project+envdiff":
+			b.WriteString("  diff {\n    concurrent_index {\n      create = true\n    }\n  }\n")
 		}
 		b.WriteString("}\n")
 		os.WriteFile(w.Path("atlas.hcl"), []byte(b.String()), 0o644)
@@ -285,6 +298,9 @@ func cliCases(tier string) []CLICase {
 		}
 		for _, dev := range []bool{false, true} {
 			cs = append(cs, CLICase{Skip: sk, Via: "env", Dev: dev, Source: "hcl"})
+			if !dev {
+				cs = append(cs, CLICase{Skip: sk, Via: "project", Source: "hcl"}, CLICase{Skip: sk, Via: "project+envdiff", Source: "hcl"})
+			}
 			if tier == "thorough" {
 				cs = append(cs, CLICase{Skip: sk, Via: "env", Dev: dev, Source: "db"}, CLICase{Skip: sk, Patterns: []string{"secret_*"}, Via: "env", Dev: dev, Source: "hcl"})
 			}
